@@ -119,18 +119,19 @@ theorem otherNamespaces_of_props {a b : Inst} (h : a.props = b.props) (t : Name)
 * `keyed`  stored paths carry no host and the namespace of their store;
 * `nodup`  an instance store is a dict: one instance per class name + keybindings;
 * `loc`    a stored instance with ends lives in a namespace that one of its ends names;
-* `conf`   a stored instance without ends has no namesake (same class name + keybindings) in another namespace;
+* `conf`   a stored association instance (one with a reference property) without ends has no namesake (same class name + keybindings) in another namespace;
 * `shadow` for every namespace an end names there is a namesake stored in that namespace;
-* `coh`    namesakes have the same properties and class: they are copies of one instance. -/
+* `coh`    namesakes of an association instance have its properties and class: they are copies of one instance. -/
 structure WInv (r : Repo) : Prop where
   uniq : ∀ S ∈ r, ∀ T ∈ r, ieq S.name T.name = true → S = T
   keyed : ∀ S ∈ r, ∀ a ∈ S.insts, a.path.host = none ∧ ∃ m, a.path.ns = some m ∧ ieq m S.name = true
   nodup : ∀ S ∈ r, ∀ a ∈ S.insts, ∀ b ∈ S.insts, pkEq a.path b.path = true → a = b
   loc : ∀ S ∈ r, ∀ a ∈ S.insts, endNss a = [] ∨ inNss (endNss a) S.name = true
-  conf : ∀ S ∈ r, ∀ T ∈ r, ∀ a ∈ S.insts, ∀ b ∈ T.insts, pkEq a.path b.path = true → endNss a = [] → S = T
+  conf : ∀ S ∈ r, ∀ T ∈ r, ∀ a ∈ S.insts, ∀ b ∈ T.insts, pkEq a.path b.path = true → hasRef a = true →
+    endNss a = [] → S = T
   shadow : ∀ S ∈ r, ∀ a ∈ S.insts, ∀ n ∈ endNss a,
     ∃ T ∈ r, ieq T.name n = true ∧ ∃ a' ∈ T.insts, pkEq a'.path a.path = true
-  coh : ∀ S ∈ r, ∀ T ∈ r, ∀ a ∈ S.insts, ∀ b ∈ T.insts, pkEq a.path b.path = true →
+  coh : ∀ S ∈ r, ∀ T ∈ r, ∀ a ∈ S.insts, ∀ b ∈ T.insts, pkEq a.path b.path = true → hasRef a = true →
     a.props = b.props ∧ a.cls = b.cls
 
 /-- a repository transformed store by store (names and class stores untouched) -/
@@ -145,10 +146,11 @@ theorem winv_mapInsts {r : Repo} {F : NsStore → List Inst} (hinv : WInv r)
     (hkeyed : ∀ S ∈ r, ∀ a ∈ F S, a.path.host = none ∧ ∃ m, a.path.ns = some m ∧ ieq m S.name = true)
     (hnodup : ∀ S ∈ r, ∀ a ∈ F S, ∀ b ∈ F S, pkEq a.path b.path = true → a = b)
     (hloc : ∀ S ∈ r, ∀ a ∈ F S, endNss a = [] ∨ inNss (endNss a) S.name = true)
-    (hconf : ∀ S ∈ r, ∀ T ∈ r, ∀ a ∈ F S, ∀ b ∈ F T, pkEq a.path b.path = true → endNss a = [] → S = T)
+    (hconf : ∀ S ∈ r, ∀ T ∈ r, ∀ a ∈ F S, ∀ b ∈ F T, pkEq a.path b.path = true → hasRef a = true →
+      endNss a = [] → S = T)
     (hshadow : ∀ S ∈ r, ∀ a ∈ F S, ∀ n ∈ endNss a,
       ∃ T ∈ r, ieq T.name n = true ∧ ∃ a' ∈ F T, pkEq a'.path a.path = true)
-    (hcoh : ∀ S ∈ r, ∀ T ∈ r, ∀ a ∈ F S, ∀ b ∈ F T, pkEq a.path b.path = true →
+    (hcoh : ∀ S ∈ r, ∀ T ∈ r, ∀ a ∈ F S, ∀ b ∈ F T, pkEq a.path b.path = true → hasRef a = true →
       a.props = b.props ∧ a.cls = b.cls) : WInv (mapInsts r F) := by
   constructor
   · intro S' hS' T' hT' hn
@@ -165,10 +167,10 @@ theorem winv_mapInsts {r : Repo} {F : NsStore → List Inst} (hinv : WInv r)
   · intro S' hS' a ha
     obtain ⟨S, hS, rfl⟩ := mem_mapInsts.mp hS'
     exact hloc S hS a ha
-  · intro S' hS' T' hT' a ha b hb hpk he
+  · intro S' hS' T' hT' a ha b hb hpk hr he
     obtain ⟨S, hS, rfl⟩ := mem_mapInsts.mp hS'
     obtain ⟨T, hT, rfl⟩ := mem_mapInsts.mp hT'
-    have := hconf S hS T hT a ha b hb hpk he
+    have := hconf S hS T hT a ha b hb hpk hr he
     subst this; rfl
   · intro S' hS' a ha n hn
     obtain ⟨S, hS, rfl⟩ := mem_mapInsts.mp hS'
@@ -178,6 +180,14 @@ theorem winv_mapInsts {r : Repo} {F : NsStore → List Inst} (hinv : WInv r)
     obtain ⟨S, hS, rfl⟩ := mem_mapInsts.mp hS'
     obtain ⟨T, hT, rfl⟩ := mem_mapInsts.mp hT'
     exact hcoh S hS T hT a ha b hb
+
+theorem hasRef_of_props {a b : Inst} (h : a.props = b.props) : hasRef a = hasRef b := by
+  simp [hasRef, h]
+
+theorem hasRef_of_endNss {a : Inst} {n : Name} (h : n ∈ endNss a) : hasRef a = true := by
+  obtain ⟨p, hp, hr, _⟩ := mem_endNss.mp h
+  simp only [hasRef, List.any_eq_true]
+  exact ⟨p, hp, hr⟩
 
 theorem findNs_mem {r : Repo} {n : Name} {S : NsStore} (h : findNs r n = some S) :
     S ∈ r ∧ ieq S.name n = true := by
@@ -198,12 +208,14 @@ theorem findNs_of_mem {r : Repo} (hu : ∀ S ∈ r, ∀ T ∈ r, ieq S.name T.na
 
 /-- under the discipline, every namesake of `a` lives in `a`'s own store or in a namespace `a`'s ends name -/
 theorem namesake_confined {r : Repo} (hinv : WInv r) {S T : NsStore} (hS : S ∈ r) (hT : T ∈ r)
-    {a b : Inst} (ha : a ∈ S.insts) (hb : b ∈ T.insts) (hpk : pkEq b.path a.path = true) :
+    {a b : Inst} (ha : a ∈ S.insts) (hb : b ∈ T.insts) (hpk : pkEq b.path a.path = true)
+    (hr : hasRef a = true) :
     T = S ∨ inNss (endNss a) T.name = true := by
-  have hprops := (hinv.coh T hT S hS b hb a ha hpk).1
-  have he : endNss b = endNss a := endNss_of_props hprops
+  have hprops := (hinv.coh S hS T hT a ha b hb (pkEq_symm hpk) hr).1
+  have he : endNss b = endNss a := endNss_of_props hprops.symm
+  have hrb : hasRef b = true := by rw [← hasRef_of_props hprops]; exact hr
   rcases hinv.loc T hT b hb with h0 | h1
-  · exact Or.inl (hinv.conf T hT S hS b hb a ha hpk h0)
+  · exact Or.inl (hinv.conf T hT S hS b hb a ha hpk hrb h0)
   · right; rw [← he]; exact h1
 
 end C13
